@@ -14,7 +14,9 @@ class Event:
         self.kind, self.eff, self.ctx, self.order = kind, eff, ctx, order
         self.fam = None
         self.err = None
-        self.sym_ifs = [(c, br) for c, br in ctx if c.kind == 'if']
+        allifs = [(c, br) for c, br in ctx if c.kind == 'if']
+        self.status_guards = [(c, br) for c, br in allifs if is_status_cond(c.cond)]
+        self.sym_ifs = [(c, br) for c, br in allifs if not is_status_cond(c.cond)]
         self.loops = [c for c, _ in ctx if c.kind in ('for', 'while')]
         self.calls = [c.target.qualname for c, _ in ctx if c.kind == 'call']
         self.iters = [c for c, _ in ctx if c.kind == 'iter']
@@ -77,6 +79,11 @@ class LPRun:
                 d['err'] = str(u)
             out.append(d)
         return out
+
+
+def is_status_cond(c):
+    """A condition on the LP problem's solve status (e.g. LpStatus[prob.status] == 'Optimal')."""
+    return contains(c, lambda x: x[0] == 'attr' and x[2] == 'status')
 
 
 def norm_family(f):
